@@ -351,11 +351,28 @@ Lemma bit_xor_ok a b : wf a = true -> wf b = true -> ok (bit_xor a b) (Z.lxor (d
 Proof. apply bitop_ok; [apply lxor_i64 | apply Z.lxor_comm]. Qed.
 
 (* ---- pow ---- *)
+Lemma zpow_spec a b : 0 <= b -> zpow a b = a ^ b.
+Proof.
+  intros Hb. unfold zpow.
+  destruct (Z.eqb_spec a 0) as [->|H0].
+  - destruct (Z.eqb_spec b 0) as [->|Hb0]; [reflexivity|]. symmetry. apply Z.pow_0_l. lia.
+  - destruct (Z.eqb_spec a 1) as [->|H1]; [symmetry; apply Z.pow_1_l; lia|].
+    destruct (Z.eqb_spec a (-1)) as [->|Hm1]; [|reflexivity].
+    destruct (Z.even b) eqn:Ev.
+    + apply Z.even_spec in Ev. destruct Ev as [k ->].
+      rewrite Z.pow_mul_r by lia. change ((-1) ^ 2) with 1. symmetry. apply Z.pow_1_l. lia.
+    + assert (Hodd : Z.odd b = true) by (rewrite <- Z.negb_even, Ev; reflexivity).
+      apply Z.odd_spec in Hodd. destruct Hodd as [k ->].
+      rewrite Z.pow_add_r, Z.pow_mul_r by lia. change ((-1) ^ 2) with 1.
+      rewrite Z.pow_1_l by lia. reflexivity.
+Qed.
+
 Lemma pow_ok a b : wf a = true -> wf b = true -> 0 <= den b -> ok (pow a b) (den a ^ den b).
 Proof.
   intros Ha Hb Hnn. unfold pow. destruct (Z.ltb_spec (den b) 0); [lia|].
+  rewrite <- (zpow_spec (den a) (den b)) by lia.
   destruct a as [s1|l1], b as [s2|l2]; cbn [den] in *; try apply from_ok.
-  destruct (u32b s2 && i64b (s1 ^ s2)) eqn:E; [|apply from_ok].
+  destruct (u32b s2 && i64b (zpow s1 s2)) eqn:E; [|apply from_ok].
   apply andb_true_iff in E. destruct E as [_ E]. apply short_ok. now apply i64b_true.
 Qed.
 
@@ -403,3 +420,7 @@ Proof.
   destruct a as [s|l]; cbn [first_u64_digit]; rewrite from_wf, from_den; split; auto;
     apply Z.mod_pos_bound; lia.
 Qed.
+
+(* ---- float -> int for integral floats ---- *)
+Lemma from_f64_exact_ok z : ok (from_f64_exact z) z.
+Proof. exact (checked_ok z). Qed.
